@@ -141,7 +141,7 @@ func expectedTrace(pristine *fpb.Config, limit int) (*trace, *mismatch) {
 
 // runClient runs the real fake client on an in-memory stream and stops it
 // after limit responses.
-func runClient(cfg *fpb.Config, limit int) (resps []*gpb.SubscribeResponse, ended bool, mm *mismatch, inconclusive string) {
+func runClient(cfg *fpb.Config, limit int, gate ...<-chan struct{}) (resps []*gpb.SubscribeResponse, ended bool, mm *mismatch, inconclusive string) {
 	st := vlib.NewStream(context.Background(), "c20")
 	defer st.Cancel()
 	c := fgnmi.NewClient(cfg)
@@ -159,6 +159,9 @@ func runClient(cfg *fpb.Config, limit int) (resps []*gpb.SubscribeResponse, ende
 		pan interface{}
 	}
 	done := make(chan res, 1)
+	for _, g := range gate {
+		<-g // barrier: parallel mode starts several clients together
+	}
 	go func() {
 		var x res
 		defer func() {
